@@ -78,7 +78,7 @@ def decode(c):
 
 def duration(c):
     with time_machine.travel(at(c["now"]), tick=False):
-        try: return "ok " + tools.calc_duration(c["start"], c["end"])
+        try: r_ = tools.calc_duration(c["start"], c["end"]); return "ok " + (r_ if isinstance(r_, str) else repr(r_))
         except Exception: return "raised"
 
 
